@@ -1255,11 +1255,21 @@ pub fn oracle_c11(w: &World, so: &StepObs, out: &mut StepOut, cps: &CpRef) {
                                     let (sf, tf) = w.calc_fee(*v, n);
                                     let old_eq = pp.margin.u128() as i128 + pnl_of(pp, p0o.out_spot) - owed;
                                     let exp_net = pn.margin.u128() as i128 - old_eq + (sf + tf) as i128;
-                                    if (net_paid - exp_net).abs() > 3 {
-                                        out.viol(
-                                            "C11:funding-charge:reversal-skips-funding",
-                                            format!("trader paid net {} expected {} (old equity {} incl. funding owed {}) in {:?}", net_paid, exp_net, old_eq, owed, so.act),
-                                        );
+                                    // only the funding component is C11's business: the discrepancy is judged when it is a
+                                    // small multiple of the funding owed (not charged = the listed finding, charged twice, ...);
+                                    // a discrepancy of another size has another cause (e.g. the listed native overcharge of C13)
+                                    let dlt = net_paid - exp_net;
+                                    if dlt.abs() > 3 {
+                                        let k_of = |k: i128| (dlt - k * owed).abs() <= 3;
+                                        if owed.abs() <= 6 {
+                                            out.tag("c11:reversal-funding-too-small-to-separate");
+                                        } else if k_of(-1) {
+                                            out.viol("C11:funding-charge:reversal-skips-funding", format!("trader paid net {} expected {} (old equity {} incl. funding owed {}) in {:?}", net_paid, exp_net, old_eq, owed, so.act));
+                                        } else if k_of(1) || k_of(2) || k_of(-2) {
+                                            out.viol("C11:funding-charge:reversal", format!("trader paid net {} expected {} (old equity {} incl. funding owed {}) in {:?}", net_paid, exp_net, old_eq, owed, so.act));
+                                        } else {
+                                            out.tag("c11:reversal-payment-differs-for-reasons-other-than-funding");
+                                        }
                                     }
                                 }
                             }
@@ -1272,11 +1282,22 @@ pub fn oracle_c11(w: &World, so: &StepObs, out: &mut StepOut, cps: &CpRef) {
                                 let (sf, tf) = w.calc_fee(*v, n);
                                 let old_eq = pp.margin.u128() as i128 + pnl_of(pp, p0o.out_spot) - owed;
                                 let exp = old_eq - (sf + tf) as i128;
-                                if (net_recv - exp).abs() > 3 {
-                                    out.viol(
-                                        "C11:funding-charge:reversal-skips-funding",
-                                        format!("trader received net {} expected {} (old equity {} incl. funding owed {}) in {:?}", net_recv, exp, old_eq, owed, so.act),
-                                    );
+                                // judged while the closed position has equity to pay out, with and without the funding
+                                // (what an exact close-out does with a position under water is not C11's business)
+                                let dlt = net_recv - exp;
+                                if dlt.abs() > 3 {
+                                    let k_of = |k: i128| (dlt - k * owed).abs() <= 3;
+                                    if old_eq < 0 || old_eq + owed < 0 {
+                                        out.tag("c11:closeout-by-open-of-a-position-under-water");
+                                    } else if owed.abs() <= 6 {
+                                        out.tag("c11:reversal-funding-too-small-to-separate");
+                                    } else if k_of(1) {
+                                        out.viol("C11:funding-charge:reversal-skips-funding", format!("trader received net {} expected {} (old equity {} incl. funding owed {}) in {:?}", net_recv, exp, old_eq, owed, so.act));
+                                    } else if k_of(-1) || k_of(2) || k_of(-2) {
+                                        out.viol("C11:funding-charge:closeout-by-open", format!("trader received net {} expected {} (old equity {} incl. funding owed {}) in {:?}", net_recv, exp, old_eq, owed, so.act));
+                                    } else {
+                                        out.tag("c11:reversal-payment-differs-for-reasons-other-than-funding");
+                                    }
                                 }
                             }
                         }
